@@ -3,6 +3,8 @@ package main
 import (
 	"encoding/json"
 	"fmt"
+	"slices"
+	"strings"
 )
 
 // C11 and C12: the persistence boundary (seam S2). A container's bytes leave through ToJSON, sit
@@ -81,9 +83,25 @@ func (w *jsonWorld) Gen(seed uint64, tier string) *Plan {
 		id++
 		n = min(n, 25)
 	}
+	warm := func(ci int) {
+		// read-only calls are part of the history: what they leave behind - a memo, a flattened view, a position
+		// hint - must not outlive the next load or restart. One in three is an enumerable function, judged by
+		// C14's rule (the loaded container "continues to satisfy all its other guarantees")
+		if _, ok := s.(EnumSubject); ok && slices.Contains(enumKinds, cfg.Kind) && r.P(1, 3) {
+			p.Ops = append(p.Ops, Op{ID: id, N: "E:" + enumNames[r.Intn(4)], C: ci, A: []int{r.Intn(nPreds * nMaps), r.Intn(cfg.Dom), r.Weighted(3, 1)}})
+		} else {
+			rop := s.GenRead(r, id)
+			rop.N, rop.C = "R:"+rop.N, ci
+			p.Ops = append(p.Ops, rop)
+		}
+		id++
+	}
 	genLoad := func() {
 		var base []byte
 		var kinds []string
+		if !sweep && p.Cfg.Mode != "big" && r.P(1, 3) {
+			warm(nClients) // ... right before the load
+		}
 		switch r.Weighted(8, 3, 6, 3) {
 		case 0:
 			base = s.EncodeModel()
@@ -96,6 +114,16 @@ func (w *jsonWorld) Gen(seed uint64, tier string) *Plan {
 			}
 		case 2: // the content of some other container of the same kind
 			t := s.Fresh()
+			if c := p.Cfg; (c.Cmp == "div9" || c.Cmp == "mod5" || c.Cmp == "len" || c.Cmp == "fold" || c.VCmp == "len" || c.VCmp == "fold") && c.Ctor == "" && r.Bool() {
+				// ... written by a container that tells apart what this one's comparator identifies: several
+				// distinct keys (members, values) of the document are one key here
+				c.Cmp = "nat"
+				if c.VCmp != "" {
+					c.VCmp = "nat"
+				}
+				t = makeSubject(c, false)
+				kinds = append(kinds, "F17-foreign-writer")
+			}
 			tc := &Client{Role: roles[r.Intn(len(roles))]}
 			for i := r.Intn(12); i > 0; i-- {
 				t.ModelApply(t.GenOp(r, 100000+i, tc))
@@ -136,6 +164,10 @@ func (w *jsonWorld) Gen(seed uint64, tier string) *Plan {
 		id++
 		if r.P(1, 6) {
 			stale = append(stale, s.EncodeModel())
+		}
+		if !sweep && p.Cfg.Mode != "big" && r.P(1, 7) {
+			// (not in the large-container runs: the linked kinds' iterators read by index, a walk is quadratic)
+			warm(ci)
 		}
 		if w.prop == "C11" {
 			switch r.Weighted(20, 3, 3) {
@@ -344,6 +376,14 @@ func (w *jsonWorld) Exec(p *Plan, st *RunStats) *Violation {
 					o.Fail("C11", "restart-iteration", "after reloading %s into a fresh container: %s", b, bad)
 					return
 				}
+				if es, ok := f.(EnumSubject); ok && slices.Contains(enumKinds, p.Cfg.Kind) && p.Cfg.Mode != "big" {
+					o.Active["C14"] = true
+					es.Enumerate(Op{ID: op.ID, N: "Each", A: []int{0, 0, 0}}, o)
+					delete(o.Active, "C14")
+					if o.Failed() {
+						return
+					}
+				}
 				// same subsequent Pop/Dequeue sequence: drain the old live container and a second reload
 				if f2 := reload(); f2 != nil {
 					if d1, d2 := s.Drain(), f2.Drain(); d1 != d2 {
@@ -393,6 +433,13 @@ func (w *jsonWorld) Exec(p *Plan, st *RunStats) *Violation {
 					// "continues to satisfy all its other guarantees": the loaded container iterates like any other
 					o.Fail("C12", "loaded-iteration", "after %s: %s", op, bad)
 				}
+				if es, ok := s.(EnumSubject); ok && slices.Contains(enumKinds, p.Cfg.Kind) && p.Cfg.Mode != "big" && !o.Failed() {
+					// ... and enumerates like any other (Each, then one of Any/All/Find with a derived predicate)
+					o.Active["C14"] = true
+					es.Enumerate(Op{ID: op.ID, N: "Each", A: []int{0, 0, 0}}, o)
+					es.Enumerate(Op{ID: op.ID, N: enumNames[1+derive(op.ID, 41, 3)], A: []int{derive(op.ID, 42, nPreds*nMaps), derive(op.ID, 43, p.Cfg.Dom), 0}}, o)
+					delete(o.Active, "C14")
+				}
 			})
 			if o.V != nil && o.V.Oracle == "unjudged-stop" {
 				o.V = nil
@@ -401,6 +448,21 @@ func (w *jsonWorld) Exec(p *Plan, st *RunStats) *Violation {
 				return nil
 			}
 		default:
+			if rest, ok := strings.CutPrefix(op.N, "R:"); ok {
+				rop := op
+				rop.N = rest
+				safely(o, op, func() { o.cur = op; s.DoRead(rop) })
+				break
+			}
+			if rest, ok := strings.CutPrefix(op.N, "E:"); ok {
+				eop := op
+				eop.N = rest
+				was := o.Active["C14"]
+				o.Active["C14"] = true
+				safely(o, op, func() { o.cur = op; s.(EnumSubject).Enumerate(eop, o) })
+				o.Active["C14"] = was
+				break
+			}
 			o.Sparse = p.Cfg.Skip > 1 && derive(op.ID, 77, p.Cfg.Skip) != 0
 			safely(o, op, func() { s.Step(op, o) })
 			o.Sparse = false
